@@ -227,6 +227,15 @@ impl GenerationPass for AvailableValuePass {
                                             if i64::from(*slot) < hi && lo < i64::from(*slot) + 4)
                                     })
                                     .collect();
+                            } else {
+                                // Where the stack pointer points is unknown: the store may hit
+                                // any slot
+                                map = map
+                                    .into_iter()
+                                    .filter(|(location, _)| {
+                                        !matches!(location, MemoryLocation::StackOffset(_))
+                                    })
+                                    .collect();
                             }
                         }
                     }
